@@ -20,20 +20,30 @@ dlon_wide = st.one_of(S.floats(-30.0, 30.0), S.floats(-30.0, 30.0), S.floats(-3.
 
 
 def custom_projection():
-    def build(fe, fn, k0, zw, start_frac):
+    """A user-defined Transverse Mercator family: false origin, central scale, zone width and first central meridian.  Two in
+    three are 'tidy' (round false origins, integer widths, central meridians on the width's lattice), one in three arbitrary
+    floats (negative / fractional false origins, central scale on either side of 1, fractional widths, any first meridian)."""
+    def build(fe, fn, k0, zw, start_frac, tidy, fe2, fn2, k02, zw2):
+        if not tidy:
+            fe, fn, k0, zw = fe2, fn2, k02, zw2
         span = 60.0 * zw
         if span >= 360.0:
             start = -180.0
-        else:
+        elif tidy:
             # the 60 admissible zones cover [start, start + span); place that window anywhere inside [-180, 180]
             start = -180.0 + round(start_frac * (360.0 - span) / zw) * zw
+        else:
+            start = -180.0 + start_frac * (360.0 - span)
         return {"fe": fe, "fn": fn, "k0": k0, "zw": zw, "cm1": start + zw / 2.0}
     return st.builds(build,
                      st.sampled_from([0.0, 200000.0, 300000.0, 500000.0, 1234567.5]),
                      st.sampled_from([0.0, 5000000.0, 10000000.0, 7654321.25]),
                      st.one_of(st.sampled_from([0.9996, 0.99994, 1.0, 0.999]), S.floats(0.999, 1.0)),
                      st.sampled_from([2, 3, 6, 8]),
-                     S.floats(0.0, 1.0))
+                     S.floats(0.0, 1.0),
+                     st.sampled_from([True, True, False]),
+                     S.floats(-1e6, 3e6), st.one_of(S.floats(5e6, 1e7), st.just(10000000.0), S.floats(0.0, 1e7)), S.floats(0.99, 1.01),
+                     st.sampled_from([1.5, 2.5, 4.5, 7.5, 0.75, 5.0, 6.0]))
 
 
 def projection_spec(isg_weight=1):
@@ -131,7 +141,22 @@ def geo_cases(draw, invf_lo=150.0, invf_hi=400.0, kinds=True, max_dlon=30.0, prj
         if not (-180.0 <= lon < 180.0):
             lon = ((cm + 180.0) % 360.0) - 180.0
     kind_ = draw(S.angle_kind) if kinds else "float"
-    return {"lat": lat, "lon": lon, "zone": zone, "ell": ell, "prj": prj, "kind": kind_, "defaults": draw(st.booleans())}
+    kind2 = kind_
+    if kinds and draw(st.integers(0, 5)) == 0:
+        kind2 = draw(S.angle_kind)              # latitude and longitude in different representations
+    num = draw(S.num_kind)
+    if num == "int" and draw(st.booleans()):
+        # whole degrees (so that Python ints are what is passed), kept inside the band and within max_dlon of the zone's meridian
+        la, lo = float(round(lat)), float(round(lon))
+        ok = -80.0 <= la <= 84.0 and -180.0 <= lo < 180.0
+        if ok and zone:
+            ok = abs(((lo - cm_of(prj, zone) + 180.0) % 360.0) - 180.0) <= max_dlon
+        if ok and not zone:
+            ok = any(w[0] <= lo < w[1] for w in auto_window(prj))
+        if ok:
+            lat, lon = la, lo
+    return {"lat": lat, "lon": lon, "zone": zone, "ell": ell, "prj": prj, "kind": kind_, "kind2": kind2, "num": num,
+            "defaults": draw(st.booleans())}
 
 
 def resolve(case):
@@ -150,9 +175,31 @@ def oracle_forward(lat, lon, cm, case):
     return east, north, k0 * k, g
 
 
+def _rep(case, x):
+    """A plain float argument in the numeric representation of the case (Python int / numpy float64 where they hold the value)."""
+    return S.as_kind(x, case.get("num", "float")) if type(x) is float else x
+
+
+def _zone_rep(case, zone):
+    if case.get("num") == "np64":
+        import numpy as np
+        return np.int64(zone)
+    return zone
+
+
+def geo_args(case):
+    """(lat argument, lon argument, lat in degrees, lon in degrees) in the representations of the case."""
+    lat_o = S.angle_obj(case.get("kind", "float"), case["lat"])
+    lon_o = S.angle_obj(case.get("kind2", case.get("kind", "float")), case["lon"])
+    return lat_o, lon_o, S.obj_dec(lat_o), S.obj_dec(lon_o)
+
+
 def call_geo2grid(cv, case, lat_arg, lon_arg):
     import warnings
     ell, prj, _, _ = resolve(case)
+    lat_arg, lon_arg = _rep(case, lat_arg), _rep(case, lon_arg)
+    if case["zone"]:
+        case = dict(case, zone=_zone_rep(case, case["zone"]))
     with warnings.catch_warnings():
         warnings.simplefilter("ignore", UserWarning)     # documented: ISG with a non-ANS ellipsoid warns
         if case.get("defaults"):
@@ -168,13 +215,14 @@ def call_geo2grid(cv, case, lat_arg, lon_arg):
 def call_grid2geo(cv, case, zone, east, north, hemi):
     import warnings
     ell, prj, _, _ = resolve(case)
+    zone, east, north = _zone_rep(case, zone), _rep(case, east), _rep(case, north)
     with warnings.catch_warnings():
         warnings.simplefilter("ignore", UserWarning)
         if case.get("defaults"):
             if case["prj"] == "utm" and case["ell"] == "grs80" and hemi.lower() == "south":
                 return cv.grid2geo(zone, east, north)                   # hemisphere 'south', GRS80 and UTM are the defaults
             if case["prj"] == "utm" and case["ell"] == "grs80":
-                return cv.grid2geo(zone, east, north, hemisphere=hemi.upper() if len(hemi) % 2 else hemi.capitalize())
+                return cv.grid2geo(zone, east, north, hemisphere=hemi.upper() if int(zone) % 2 else hemi.capitalize())
             return cv.grid2geo(zone, east, north, hemisphere=hemi, ellipsoid=ell, prj=prj)
         return cv.grid2geo(zone, east, north, hemi, ell, prj)
 
@@ -188,6 +236,15 @@ def tm_classes(case):
     out.append("zone:" + ("auto" if case.get("zone", 1) == 0 else "explicit"))
     if "kind" in case:
         out.append("kind:" + case["kind"])
+        if case.get("kind2", case["kind"]) != case["kind"]:
+            out.append("mixed-representations")
+    if "num" in case:
+        vals = [case[k] for k in ("lat", "lon", "east", "north") if k in case]
+        really = case["num"] == "np64" or (case["num"] == "int" and any(float(v).is_integer() for v in vals))
+        out.append("num:" + (case["num"] if really else "float"))
+    if not isinstance(p, str):
+        tidy = float(p["zw"]).is_integer() and 0.999 <= p["k0"] <= 1.0 and p["fe"] >= 0
+        out.append("custom-prj:" + ("tidy" if tidy else "arbitrary"))
     if "lat" in case:
         out.append("north" if case["lat"] > 0 else ("south" if case["lat"] < 0 else "equator"))
         if case.get("zone", 0):
@@ -248,8 +305,13 @@ def grid_cases(draw, prj_strategy=None, ell_strategy=None, wide=True):
     else:
         x = (draw(_unit) * 2 - 1) * 3.3e6
     east = fe + x
+    num = draw(S.num_kind)
+    if num == "int" and draw(st.booleans()):
+        east, north = float(round(east)), float(round(north))        # whole metres, passed as Python ints
+        if south and north > fn:
+            north = float(math.floor(fn))                              # (rounding must not carry the point across the equator)
     return {"zone": zone, "east": east, "north": north, "hemi": "south" if south else "north", "ell": ell, "prj": prj,
-            "defaults": draw(st.booleans())}
+            "defaults": draw(st.booleans()), "num": num}
 
 
 def grid_domain_or_discard(case, lat, lon):
